@@ -9,6 +9,8 @@
   (`decoded_finalized`; Props/C02FinalUnordered.lean: its chronological hypothesis is needed), Props/C02FinalMania.lean (taiko / mania, all modes), Props/C02FinalToy.lean (non-vacuity),
   Props/C02FinalCurves.lean (gap (e): the computed curves of re-decoded sliders, `roundtrip_curves_partial`) and
   Props/C02FinalScroll.lean (gap (d): `ScrollDrivesSv` of decoded taiko / mania maps, `decoded_scrollDrivesSv`; false for out-of-order timing lines).
+  Props/C02IeeeTiming.lean: the timing clause on IEEE doubles — the drift of a stored slider velocity / scroll speed over
+  decode → encode → decode (`sv_roundtrip_err_float`, `sv_roundtrip_not_exact_float`).
   All in namespace `Rosu.C02`.
 -/
 import RosuModel.Props.C02Slider
@@ -29,3 +31,4 @@ import RosuModel.Props.C02FinalCurves
 import RosuModel.Props.C02FinalScroll
 import RosuModel.Props.C02FinalScrollToy
 import RosuModel.Props.C02FinalScrollExact
+import RosuModel.Props.C02IeeeTiming
